@@ -1,5 +1,6 @@
 import LicenseExpr.Props.C16
 import LicenseExpr.Props.C17
+import LicenseExpr.Lemmas.Alone
 import LicenseExpr.Model.Api
 /-!
 # C04 — known keys and aliases are recognised whatever the case and spacing
@@ -11,8 +12,11 @@ skips). What is proved: every occurrence of a stored name is reported with its e
 (`C04_recognised`), a reported name is always a whole-word occurrence — so operator words inside a
 longer word are never operators (`C04_whole_words`, `C04_operator_whole_word`) — and among the
 reported matches the leftmost of the longest always survives selection (`C04_longest`).
-The composition with the later stages (the operand then parses to the entry's symbol and renders
-as its canonical key) is covered by the correspondence run.
+The composition with the later stages is proved for a name that stands alone as the whole
+expression (`C04_alone`): in any letter case and with any blanks between its words it parses to its
+license's symbol and renders as the canonical key, for every table that is unambiguous in the
+matcher's own terms (`namesUniqueB`, a decidable check the driver evaluates on every table of the
+run). For an operand inside a larger expression the composition is covered by the correspondence run.
 -/
 namespace LE
 variable {V : Type}
@@ -63,5 +67,40 @@ theorem C04_operator_whole_word (w : Str) (k : Kw) (h : operatorOf w = some k) :
 theorem C04_longest (l : List (Tok V)) (m : Tok V) (hm : m ∈ l)
     (h : ∀ x ∈ l, x = m ∨ x.ilen < m.ilen ∨ (x.ilen ≤ m.ilen ∧ m.s < x.s)) : m ∈ filterOverlapping l :=
   C17_leftmost_longest l m hm h
+
+theorem ownedW_spec (c : Cls) (T : Table) (ws : List Word) (s : Sym) (h : ownedW (storedW c T) ws s = true) :
+    OwnedBy c T ws s := by
+  simp only [ownedW, storedW, Bool.and_eq_true, List.any_eq_true, List.all_eq_true, List.mem_map, Bool.or_eq_true,
+    Bool.not_eq_true', beq_iff_eq, beq_eq_false_iff_ne, forall_exists_index, and_imp] at h
+  obtain ⟨⟨x, ⟨a, ha, rfl⟩, hx⟩, hall⟩ := h
+  refine ⟨⟨a, ha, hx⟩, ?_⟩
+  intro b hb hwb
+  rcases hall _ b hb rfl with h1 | h1
+  · exact absurd hwb h1
+  · exact h1
+
+/-- **C04 (a name alone)**: for every table that is unambiguous in the matcher's terms, every stored name
+    of every entry — the key, each alias — written in any letter case and with any amount and kind of
+    whitespace between its words (and around parentheses inside an alias) resolves, as an expression of
+    its own, to that entry's license and renders with the canonical key. -/
+theorem C04_alone (c : Cls) (hc : ClsOK c) (T : Table) (hu : namesUniqueB c T = true) (e : Entry) (he : e ∈ T)
+    (n : Str) (hn : (n, symVal e) ∈ entryAdds c e) (hw : wordsOf c n ≠ []) (spelling : Str)
+    (hs : wordsOf c spelling = wordsOf c n) :
+    parseFull c T false false false spelling = .ok (.atom (.lic ⟨e.key, e.exc⟩)) ∧
+    renderStr (.atom (.lic ⟨e.key, e.exc⟩)) = e.key := by
+  refine ⟨?_, by simp [renderStr, renderWith, Atom.render]⟩
+  have hmem : (n, symVal e) ∈ addsOf c T := by
+    unfold addsOf
+    exact List.mem_append_right _ (List.mem_flatMap.mpr ⟨e, he, hn⟩)
+  have hown : OwnedBy c T (wordsOf c n) ⟨e.key, e.exc⟩ := by
+    apply ownedW_spec
+    unfold namesUniqueB at hu
+    simp only [List.all_eq_true, Bool.or_eq_true] at hu
+    have := hu (wordsOf c n, symVal e) (by simp only [storedW, List.mem_map]; exact ⟨_, hmem, rfl⟩)
+    rcases this with h | h
+    · exact absurd (by simpa using h) hw
+    · simpa [symVal] using h
+  rw [← hs] at hown
+  exact parse_alone c hc T spelling _ (by rw [hs]; exact hw) hown
 
 end LE
